@@ -74,6 +74,21 @@ for p in sorted(glob.glob(os.path.join(root, "seeded", "*", "meta.json"))):
     w("| %s | %s | %s | %s | %s |" % (name, m.get("property"), (m.get("title") or "").replace("|", "/")[:300],
                                      (m.get("needs_to_manifest") or "").replace("|", "/").replace("\n", " ")[:300], "<br>".join(caught) or "?"))
 
+# summary of the seeding experiment
+tot = caught_first = after = notc = 0
+for p in sorted(glob.glob(os.path.join(root, "seeded", "*", "meta.json"))):
+    m = json.load(open(p)); v = m.get("verified_by_lead", {})
+    tot += 1
+    rc = v.get("recheck") or {}
+    now = rc.get("detected") if rc else v.get("detected")
+    if v.get("caught_after_strengthening"):
+        after += 1
+    elif now:
+        caught_first += 1
+    else:
+        notc += 1
+w("\nSeeded changes kept: %d. Caught by the check as it stood when the seed arrived: %d. Missed at first and caught after the check was strengthened (see the note in each row): %d. Not caught at the time of writing: %d." % (tot, caught_first, after, notc))
+
 text = "\n".join(out) + "\n"
 dp = os.path.join(root, "DESIGN.md")
 s = open(dp).read()
